@@ -51,20 +51,21 @@ type GenPkg struct {
 
 // Run is one harness entry point.
 type Run struct {
-	Name       string           `json:"name"`
-	Pkg        string           `json:"pkg"` // import path
-	Files      []string         `json:"files"`
-	Entry      string           `json:"entry"`
-	Quick      map[string]int64 `json:"quick"`
-	Thorough   map[string]int64 `json:"thorough"`
-	Covers     []string         `json:"covers"`
-	Bounds     string           `json:"bounds"`
-	MaxPaths   int              `json:"maxpaths"`
-	TimeoutS   map[string]int   `json:"timeout_s"`
-	Tiers      []string         `json:"tiers"` // restrict to these tiers (default both)
-	NoNative   bool             `json:"no_native"`
-	Programs   int              `json:"programs"`
-	StepBudget int64            `json:"step_budget"`
+	Name       string            `json:"name"`
+	Pkg        string            `json:"pkg"` // import path
+	Files      []string          `json:"files"`
+	Entry      string            `json:"entry"`
+	Quick      map[string]int64  `json:"quick"`
+	Thorough   map[string]int64  `json:"thorough"`
+	Covers     []string          `json:"covers"`
+	Bounds     string            `json:"bounds"`
+	MaxPaths   int               `json:"maxpaths"`
+	TimeoutS   map[string]int    `json:"timeout_s"`
+	Tiers      []string          `json:"tiers"` // restrict to these tiers (default both)
+	NoNative   bool              `json:"no_native"`
+	Programs   int               `json:"programs"`
+	StepBudget int64             `json:"step_budget"`
+	Stubs      map[string]string `json:"stubs"`
 }
 
 // KnownFile is /verif/known-findings.json.
@@ -272,6 +273,7 @@ func main() {
 				return p == "internal/cpu" || p == "internal/bytealg" || p == "unsafe" || p == "internal/godebug" || p == "internal/race"
 			},
 			Witness: *witness,
+			Stubs:   run.Stubs,
 			Tolerant: func(p string) bool {
 				return p == "encoding/json" || p == "net/http" || p == "net/textproto" || p == "mime" || p == "log/slog" || p == "go/types"
 			},
